@@ -296,6 +296,7 @@ def constructor_cases(build):
         for nm in ('normalize_batch', 'convert_batch'):
             cases.append((' '.join(l) + f' named:{nm} allvalid', f'true {len(l)}', f'{nm} of {l}'))
     cases.append(('named:sample allvalid', 'true 16', 'UniformRand samplers (8 elements, 8 affine points)'))
+    cases.append(('named:sample_stuck allvalid', 'true 8', 'UniformRand samplers fed by a generator that repeats one word for 1400-3000 draws before it recovers'))
     for prog, P, desc in element_exprs(build)[:40]: cases.append((f'{prog} valid', 'true', f'validity of {desc}'))
     return cases
 
@@ -556,6 +557,9 @@ def r1cs_honest_cases(build):
     for k in (1, 2, 5, 7, 22):
         for rep in '0123': cases.append((f'r1cs:constant,{le(k)},{rep}', 'value_ok=true sum_ok=true sat=true', f'ElementVar::constant([{k}]B in representation {rep}) and constant + witness'))
     for a, b, c in ((3, 5, 0), (3, 5, 1), (0, 7, 1)): cases.append((f'r1cs:select,{le(a)},{le(b)},{c}', 'sat=true value_ok=true', f'conditionally_select({c}, [{a}]B, [{b}]B)'))
+    # completeness in the other direction: what the native decoder rejects, a gadget on variables allocated from that encoding rejects too
+    for s_ in (1, 2, 4, 6, 10, 12, 3, 5):
+        if decode_expect(le_bytes(s_)).startswith('err'): cases.append((f'r1cs:eqinvalid,{le(s_)}', 'sat=false native_valid=false', f'enforce_equal on two variables allocated from the invalid encoding {s_}'))
     return cases
 
 def r1cs_adversarial_cases(build, obs=()):
@@ -606,6 +610,7 @@ def shape_cases(build, obs=()):
                "enforce_equal_cond", "enforce_not_equal_cond", "select", "to_bits", "to_bytes", "from_field_then_compress"]
     cases = [(f'shape:shape,{g}', ('re', r'^same '), f'gadget {g}: variables and constraint matrices over 14 structured inputs and in setup mode') for g in gadgets]
     cases += [(f'shape:pubinput,{i}', 'inst=2 value_ok=true tcf_ok=true sat=true', f'public-input allocation of structured element #{i}') for i in range(7)]
+    cases += [(f'shape:pubinput_aff,{i}', 'ok=true inst=2 value_ok=true sat=true', f'public-input allocation (from an AffinePoint) of structured element #{i}') for i in range(7)]
     return cases
 
 def le_bytes(v): return v.to_bytes(32, 'little')
